@@ -14,7 +14,7 @@ RULE = ("for each scripted connection (1..3 requests, handler family of C07): EO
         "spin, no deadlock), no handler runs for an incomplete preamble, a handler read that cannot be satisfied fails (UnexpectedEof / transport "
         "error) instead of returning a short or empty success, nothing is written after a failed write and the log is a prefix of a well-formed "
         "record sequence. Non-trivial: every case (each has a fault); distinct = distinct case lines.")
-ASSUMPTIONS = C07.ASSUMPTIONS + ["handlers propagate write errors (the scripted family returns Err on a failed write)"]
+ASSUMPTIONS = C07.ASSUMPTIONS + ["handlers propagate write errors (the scripted family returns Err on a failed write); reads propagate when scripted as `read?` (op 10); the nothing-written-after-a-failed-write clause is judged only on runs in which no error was swallowed by the handler"]
 
 
 def base(rng, short=False):
@@ -36,7 +36,13 @@ def base(rng, short=False):
             h.append(("writeable",))
             for _ in range(rng.randrange(0, 3)):
                 h.append(("write", rng.choice([STDOUT, STDERR]), [rng.randrange(256) for _ in range(rng.choice([1, 9, 60]))]))
-        h.append(rng.choice([("readall",), ("read", 16), ("fill", 10 ** 6), ()]))
+        rd = rng.choice([("readall",), ("read", 16), ("fill", 10 ** 6), (), "prop", "prop"])
+        if rd == "prop":
+            # `req.read(..).await?` a few times: a handler that propagates read errors (incl. the error of a reply flush)
+            for _ in range(rng.randrange(1, 6)):
+                h.append(("read?", rng.choice([1, 7, 16, 64])))
+        else:
+            h.append(rd)
         h.append(rng.choice([("ret", 0, 0), ("ret", 0, 3), ()]))
         scripts.append([o for o in h if o])
     return B, segs, scripts
@@ -70,8 +76,12 @@ def gen_cases(rng, tier):
             yield conn_case(B, 1, segs, scripts, rs, [], rng.choice([0, 1])), ["read-error"]
         nw = rng.randrange(1, 30)
         for j in (range(nw) if not quick else sorted(rng.sample(range(nw), min(nw, 8)))):
-            ws = [rng.choice([1, 7, 8, 16, 10 ** 6, 0]) for _ in range(j)] + [rng.choice([W_ERR, W_ZERO])]
-            yield conn_case(B, 1, segs, scripts, C07.io_script(rng, 60, "r"), ws, rng.choice([0, 1])), ["write-fault"]
+            # the fault is followed by explicit 'accept everything' entries, so that write calls made AFTER the failed one
+            # are counted in the observation (the transport-call counter only counts scripted calls)
+            fault = rng.choice([W_ERR, W_ZERO, W_ERR_AB])
+            ws = [rng.choice([1, 7, 8, 16, 10 ** 6, 0]) for _ in range(j)] + [fault] + [10 ** 6] * 40
+            yield conn_case(B, 1, segs, scripts, C07.io_script(rng, 60, "r"), ws, rng.choice([0, 1])), \
+                ["write-fault", "write-fault-aborted-kind" if fault == W_ERR_AB else "write-fault-plain"]
 
 
 def nontrivial(line, tags):
@@ -79,7 +89,7 @@ def nontrivial(line, tags):
 
 
 def min_classes(tier):
-    return {"eof": 2000, "read-error": 300, "write-fault": 300}
+    return {"eof": 2000, "read-error": 300, "write-fault": 300, "write-fault-aborted-kind": 60}
 
 
 def outcome(line, out):
@@ -147,7 +157,18 @@ def oracle(line, impl_line):
     # writes
     faults = [i for i, x in enumerate(wscript) if x >= 4000000001]
     if faults and cnt[2] > faults[0] + 1:
-        return "the transport was written to again after a failed write (call %d failed, %d calls made)" % (faults[0], cnt[2])
+        # judged for handlers that propagate I/O errors: every error a handler saw ended that handler with this error
+        # (write ops and `read?` ops return it; plain read / read_to_end / fill_buf / writeable ops of the script family go on)
+        swallowed = False
+        for q, iv in enumerate(inv):
+            hops = C07.handler_ops(scripts[min(q, len(scripts) - 1)]) if scripts else []
+            for (ev, _), op in zip(iv["ops"], hops):
+                failed = (ev[0] in (1, 3) and ev[1] == 0) or (ev[0] == 2 and ev[1] != 0) or (ev[0] == 5 and ev[1] != 0)
+                if failed and op[0] != "read?":
+                    swallowed = True
+        if not swallowed:
+            return ("the transport was written to again after a failed write (scripted call %d failed, %d calls made) although every "
+                    "error was propagated" % (faults[0], cnt[2]))
     lrecs, ltail = parse_records(wlog)
     if isinstance(ltail, tuple) or any(not 1 <= r[0] <= 11 for r in lrecs):
         return "the bytes written before the fault are not a prefix of a well-formed record sequence"
